@@ -36,6 +36,11 @@ type LocalFlowControlWrapper interface {
 	flowcontrol.FlowControl
 	Sync(proxyv1alpha1.FlowControlSchema)
 	Config() proxyv1alpha1.FlowControlSchema
+	// Current returns the limiter that is behind the wrapper right now, nil if
+	// the wrapper has not been synced yet. Sync replaces that limiter when the
+	// schema type changes, so a request must be given this object, not the
+	// wrapper: otherwise its Release() can land in a limiter it never acquired from.
+	Current() flowcontrol.FlowControl
 }
 
 type RemoteFlowControlWrapper interface {
@@ -147,6 +152,10 @@ type localWrapper struct {
 
 func (f *localWrapper) Config() proxyv1alpha1.FlowControlSchema {
 	return f.localConfig
+}
+
+func (f *localWrapper) Current() flowcontrol.FlowControl {
+	return f.FlowControl
 }
 
 func (f *localWrapper) Sync(schema proxyv1alpha1.FlowControlSchema) {
